@@ -1,0 +1,18 @@
+//go:build verif
+
+package cmd
+
+import (
+	"crypto"
+	"crypto/x509"
+
+	intoto "github.com/in-toto/in-toto-golang/in_toto"
+	"github.com/in-toto/in-toto-golang/internal/spiffe"
+)
+
+// VerifSVIDInTotoKey exposes internal/spiffe.SVIDDetails.InTotoKey (the key a SPIFFE
+// workload signs with) to the verification harness, which lives in another module and
+// cannot import an internal package.
+func VerifSVIDInTotoKey(priv crypto.Signer, cert *x509.Certificate, intermediates []*x509.Certificate) (intoto.Key, error) {
+	return spiffe.SVIDDetails{PrivateKey: priv, Certificate: cert, Intermediates: intermediates}.InTotoKey()
+}
